@@ -635,6 +635,9 @@ class MQTTProtocol(MQTTBaseProtocol):
             if keepOwn and request.protocol is self:
                 continue
             del self.factory.windowPublish[self.addr][k]
+            if request.alarm is not None:   # (re)armed if it went out on this connection before CONNACK
+                request.alarm.cancel()
+                request.alarm = None
             request.deferred.errback(reason)
 
         for k in list(self.factory.windowPubRelease[self.addr]):
